@@ -104,11 +104,11 @@ func (c *SzseBinChecksumService) Algorithm() string {
 	return "SZSE_BIN"
 }
 func (c *SzseBinChecksumService) Calc(data *bytes.Buffer) int32 {
-	var checksum int32
+	var checksum uint32
 	for _, b := range data.Bytes() {
-		checksum += int32(b)
+		checksum += uint32(b)
 	}
-	return checksum % 256
+	return int32(checksum % 256)
 }
 
 func init() {
